@@ -502,7 +502,7 @@ func (ex *Exec) chanClose(cv Value) {
 func (ex *Exec) selectOp(fr *Frame, x *ssa.Select) Value {
 	tt := ex.tt
 	// environment hook: other goroutines (event producers) may act before the select is evaluated
-	if ex.W.onSelect != nil && !ex.W.inOnSelect {
+	if ex.W.onSelect != nil && !ex.W.inOnSelect && (x.Blocking || !ex.W.onSelectBlockingOnly) {
 		ex.W.inOnSelect = true
 		ex.callValue(nil, ex.W.onSelect, nil, nil)
 		ex.W.inOnSelect = false
